@@ -172,9 +172,102 @@ func driveProbe(args []string) error {
 	return nil
 }
 
-var _ = bufio.NewWriter
-var _ = rand.New
+// ---- grammar driver: seeded random program trees, deeper and wider than the TLC configurations reach
+type treeGen struct {
+	rng      *rand.Rand
+	ids      int
+	maxDepth int
+}
+
+func (g *treeGen) node(depth int, kind, to string, val int, ro bool, ctx string) *Node {
+	g.ids++
+	n := &Node{ID: g.ids, Kind: kind, To: to, Val: val}
+	myctx := ctx
+	if kind == "call" || kind == "staticcall" {
+		myctx = to
+	}
+	ro = ro || kind == "staticcall"
+	nitems := g.rng.Intn(5)
+	for i := 0; i < nitems && g.ids < 40; i++ {
+		switch x := g.rng.Intn(10); {
+		case x < 3 && !ro:
+			n.Items = append(n.Items, &Item{Op: "sstore", Slot: slotNames[g.rng.Intn(2)], Val: g.rng.Intn(3)})
+		case x < 4 && !ro:
+			n.Items = append(n.Items, &Item{Op: "log"})
+		case depth < g.maxDepth:
+			k := []string{"call", "call", "callcode", "delegatecall", "staticcall"}[g.rng.Intn(5)]
+			v := 0
+			if (k == "call" && !ro || k == "callcode") && g.rng.Intn(3) == 0 {
+				v = 1
+			}
+			c := g.node(depth+1, k, contractNames[g.rng.Intn(3)], v, ro, myctx)
+			n.Items = append(n.Items, &Item{Op: "call", Child: c})
+		}
+	}
+	switch x := g.rng.Intn(10); {
+	case x < 4:
+		n.End = "ok"
+	case x < 6:
+		n.End = "revert"
+	case x < 8 || ro:
+		n.End = "fail"
+		if ro {
+			n.Flavor = roFlavours[g.rng.Intn(len(roFlavours))]
+		} else {
+			n.Flavor = flavours[g.rng.Intn(len(flavours))]
+		}
+	default:
+		n.End, n.Benef = "suicide", allNames[g.rng.Intn(len(allNames))]
+	}
+	return n
+}
+
+func driveTrees(args []string) error {
+	fs := flag.NewFlagSet("callframes-trees", flag.ContinueOnError)
+	out := fs.String("out", "trace.ndjson", "")
+	seed := fs.Int64("seed", 1, "")
+	num := fs.Int("n", 100, "")
+	depth := fs.Int("depth", 4, "")
+	if err := fs.Parse(args); err != nil {
+		return err
+	}
+	f, err := os.Create(*out)
+	if err != nil {
+		return err
+	}
+	defer f.Close()
+	bw := bufio.NewWriterSize(f, 1<<20)
+	defer bw.Flush()
+	enc := json.NewEncoder(bw)
+	rng := rand.New(rand.NewSource(*seed))
+	w := &world{tag: fmt.Sprintf("trees%d", *seed)}
+	defer w.close()
+	for i := 0; i < *num; i++ {
+		g := &treeGen{rng: rng, maxDepth: *depth}
+		root := g.node(0, "call", contractNames[rng.Intn(3)], rng.Intn(2), false, "U")
+		base := map[string]map[string]int{}
+		if rng.Intn(2) == 0 { // half of the programs start from committed non-zero storage
+			for _, c := range contractNames {
+				base[c] = map[string]int{"s1": rng.Intn(3), "s2": rng.Intn(2)}
+			}
+		}
+		if err := enc.Encode(map[string]interface{}{"ev": "reset", "beh": i, "step": 0, "bal": initBal, "base": fullBase(base)}); err != nil {
+			return err
+		}
+		fl, err := runProgram(w, root, base, *seed, i)
+		if err != nil {
+			return err
+		}
+		fl["ev"], fl["beh"], fl["step"], fl["strict"] = "Tree", i, 1, false
+		if err := enc.Encode(fl); err != nil {
+			return err
+		}
+	}
+	fmt.Printf("{\"trees\": %d}\n", *num)
+	return nil
+}
 
 func init() {
 	engine.RegisterDriver("callframes-probe", driveProbe)
+	engine.RegisterDriver("callframes-trees", driveTrees)
 }
